@@ -1075,8 +1075,40 @@ def rt_handbuilt_nomut(req):
     def fwd(*args, **kwargs):
         return part(*args, **kwargs)
     loose = mk_sig()
-    before = (snap_sig(shared), snap_sig(loose), ctor_defaults())
+
+    # a function whose stored __signature__ carries provenance (modifiers.annotate), reached as a bound method and through a class
+    class Annotated(object):
+        @modifiers.annotate(a=int)
+        def m(self, a, b=1):
+            return None
+
+        @modifiers.annotate(x=int)
+        def __init__(self, x=0):
+            pass
+    stored = [Annotated.__dict__['m'].__signature__, Annotated.__dict__['__init__'].__signature__]
+    # functions without source (made by exec): inspect.getsource raises OSError inside retrieval
+    ns = {}
+    exec('def nosrc(x, *args, **kwargs):\n    return target(x, *args, **kwargs)\n', {'target': target}, ns)
+    nosrc = ns['nosrc']
+    nosrc_kwo = modifiers.kwoargs('x')(nosrc)
+
+    @functools.wraps(nosrc)
+    def nosrc_w(*args, **kwargs):
+        return nosrc(*args, **kwargs)
+
+    def attrs():
+        return tuple(sorted(vars(o)) for o in (nosrc, nosrc_w, f, g, w, fwd))
+
+    def snap_all():
+        return (snap_sig(shared), snap_sig(loose), ctor_defaults(), tuple(snap_sig(x) for x in stored), attrs())
+    before = snap_all()
     steps = [
+        ('sigtools.signature(bound method of an annotate-decorated function)', lambda: sigtools.signature(Annotated().m)),
+        ('signatures.signature(bound method of an annotate-decorated function)', lambda: signatures.signature(Annotated().m)),
+        ('sigtools.signature(class with an annotate-decorated __init__)', lambda: sigtools.signature(Annotated)),
+        ('sigtools.signature(function without source)', lambda: sigtools.signature(nosrc)),
+        ('sigtools.signature(kwoargs-decorated function without source)', lambda: sigtools.signature(nosrc_kwo)),
+        ('sigtools.signature(functools.wraps wrapper of a function without source)', lambda: sigtools.signature(nosrc_w)),
         ('sigtools.signature(f)', lambda: sigtools.signature(f)),
         ('signatures.signature(g)', lambda: signatures.signature(g)),
         ('sigtools.signature(functools.wraps wrapper of f)', lambda: sigtools.signature(w)),
@@ -1097,10 +1129,12 @@ def rt_handbuilt_nomut(req):
             pass
         except Exception as e:  # noqa
             problems.append('handbuilt-raises: %s raised %s: %s' % (label, type(e).__name__, e))
-        now = (snap_sig(shared), snap_sig(loose), ctor_defaults())
+        now = snap_all()
         if now != before:
             what = ['the signature stored as __signature__ of two functions', 'a hand-built signature only used as an input',
-                    'the mutable default arguments of UpgradedParameter.__init__'][[a != b for a, b in zip(now, before)].index(True)]
+                    'the mutable default arguments of UpgradedParameter.__init__',
+                    'the signature modifiers.annotate stored on the function (its provenance maps)',
+                    'the attributes of the functions involved'][[a != b for a, b in zip(now, before)].index(True)]
             problems.append('handbuilt-mutated: %s changed %s: before %r, after %r' % (
                 label, what, before[[a != b for a, b in zip(now, before)].index(True)], now[[a != b for a, b in zip(now, before)].index(True)]))
             break
